@@ -136,7 +136,7 @@ func sizeClassOf(n int) string {
 
 func runC01(c *Ctx) {
 	r := c.R
-	r.SetRule("body size ladder (0,1,2,15..17,511..513,4095..4097,32767..32769,65535..65537, 1 MiB-1/1 MiB/1 MiB+1, thorough also 3 MiB+7, plus random sizes) x byte pattern (zeros, 0xFF, all 256 values, CR/LF/NUL-heavy, random) x key class (plain, nested, needs-escaping, UTF-8, long, dotted) x metadata class x upload path (PUT, browser-form POST, copy, Go PutObject) on all six backends with integrity checking on and off; every upload is read back by GET, HEAD, List V1/V2 and the Go API; overwrites go longer->shorter; distinct = (backend, integrity, upload path, size, pattern, key class, metadata class) with a body different from the key's previous body")
+	r.SetRule("body size ladder (0,1,2,15..17,511..513,4095..4097,32767..32769,65535..65537, 1 MiB-1/1 MiB/1 MiB+1, thorough also 3 MiB+7, plus random sizes) x byte pattern (zeros, 0xFF, all 256 values, CR/LF/NUL-heavy, random) x key class (plain, nested, needs-escaping, UTF-8, long, dotted) x metadata class x upload path (PUT, browser-form POST, copy, Go PutObject) on all six backends with integrity checking on and off; every upload is read back by GET, HEAD, List V1/V2 and the Go API, and every third one again after ten bystander requests (refused bucket delete/create, bucket sub-resource reads, reads and deletes of a never-written sibling key); overwrites go longer->shorter; distinct = (backend, integrity, upload path, size, pattern, key class, metadata class) with a body different from the key's previous body")
 	sizes := append([]int(nil), gen.SizeLadder...)
 	sizes = append(sizes, 1<<20-1, 1<<20, 1<<20+1)
 	if r.Thorough() {
@@ -325,6 +325,34 @@ func runC01(c *Ctx) {
 				ho.Contents.Close()
 				c01CheckRead(r, j.kind, "go-head", j.path, key, exp, 200, hb, false, fmt.Sprintf("\"%x\"", ho.Hash), fmt.Sprint(ho.Size), nil, sc)
 			}()
+			// "every GET": requests that are not uploads to this key must not change what it returns
+			if caseNo%3 == 0 {
+				sib := key + ".absent"
+				if len(sib) > 200 {
+					sib = "absent-sibling"
+				}
+				for _, q := range []*drv.Req{
+					{Method: "DELETE", Path: "/" + bucket}, // refused: the bucket is not empty
+					{Method: "PUT", Path: "/" + bucket},    // refused: it exists
+					{Method: "HEAD", Path: "/" + bucket},
+					{Method: "GET", Path: "/" + bucket, Query: "versions"},
+					{Method: "GET", Path: "/" + bucket, Query: "uploads"},
+					{Method: "GET", Path: "/" + bucket, Query: "location"},
+					{Method: "GET", Path: "/" + bucket, Query: drv.Q("prefix", "no-such-prefix/", "delimiter", "/")},
+					{Method: "GET", Path: drv.ObjPath(bucket, sib)},
+					{Method: "DELETE", Path: drv.ObjPath(bucket, sib)},
+					{Method: "POST", Path: "/" + bucket, Query: "delete", Body: deleteXML([]string{sib}, true)},
+				} {
+					if br := s.Do(q); br.Panic != nil {
+						r.Violation(sig("C01", backendClass(j.kind), "panic", "bystander,"+q.Method), fmt.Sprintf("%s %s %s?%s panicked: %v", j.kind, q.Method, q.Path, q.Query, br.Panic), respDesc(br))
+					}
+					r.Count("bystander_requests", 1)
+				}
+				g2 := s.Get(bucket, key)
+				c01CheckRead(r, j.kind, "get-after-bystanders", j.path, key, exp, g2.Status, g2.Body, true, g2.ETag(), g2.Header.Get("Content-Length"), g2.Header, sc)
+				h2 := s.Head(bucket, key)
+				c01CheckRead(r, j.kind, "head-after-bystanders", j.path, key, exp, h2.Status, h2.Body, false, h2.ETag(), h2.Header.Get("Content-Length"), h2.Header, sc)
+			}
 			if r.WantSample() && size > 0 && size < 20 {
 				r.Sample(map[string]interface{}{"backend": j.kind, "integrity": !j.noIntegrity, "upload_path": j.path, "size": size, "pattern": gen.PatNames[pattern], "key": key, "metadata": meta})
 			}
